@@ -40,7 +40,7 @@ RULE = ("histories of 3-14 calls (subscribe/unsubscribe of up to 5 subscribers, 
         "never ending; subject kinds plain (publish, multicast(Subject()), share), BehaviorSubject (publish_value), ReplaySubject(buffer 0..3 "
         "or unbounded); wrappers raw connectable / ref_count / auto_connect(0..3); plus multicast(subject_factory, mapper) with mapper = "
         "identity or merge(c, c); plus oracle-only 'mcast_win' cases: replay(mapper=concat(c.take(n), c), window=W[, buffer_size]) without an operator-level "
-        "scheduler, subscribed with an explicit TestScheduler (the late second use must get exactly the values still inside the window); plus 'sync' cases: a source that emits 0-3 values (and maybe a terminal) from inside its subscribe(), "
+        "scheduler, subscribed with an explicit TestScheduler (the late second use must get exactly the values still inside the window); plus oracle-only 'replay_backlog' cases (a late subscriber of replay() after 1200-4000 buffered values); plus 'sync' cases: a source that emits 0-3 values (and maybe a terminal) from inside its subscribe(), "
         "publish / publish_value / replay(0..2|unbounded), raw connectable and two ref_count views, subscribers that connect() / subscribe (to any view) / dispose another "
         "subscription / make the source emit from inside on_next (nested up to depth 2), top-level connect/disconnect/unsubscribe/push. Non-trivial: at least two different call kinds and at least one delivery. Distinct by canonical JSON.")
 ASSUMPTIONS = [
@@ -138,10 +138,11 @@ def cases(rng, tier):
         yield c
     yield from gen_sync_cases(rng, tier)
     yield from gen_mcast_win_cases(rng, tier)
+    yield from gen_backlog_cases(rng, tier)
 
 
 def model_request(case):
-    if case["op"] == "mcast_win":
+    if case["op"] in ("mcast_win", "replay_backlog"):
         return None
     if case["op"] == "sync_run":
         return {k: v for k, v in case.items() if not (k == "buf" and v is None)}
@@ -502,6 +503,70 @@ def oracle_mcast_win(case, o):
 
 
 
+# =============================================================================== replay with a long backlog
+def gen_backlog_cases(rng, tier):
+    """a late subscriber of replay() with 10^3..10^4 buffered elements gets all of them (or the last buffer_size) and the
+    terminal; values only.  Oracle only."""
+    for _ in range(fw.tier_scale(tier, 4, 12)):
+        n = rng.choice([1200, 2500, 4000])
+        yield {"op": "replay_backlog", "n": n, "buf": rng.choice([None, None, n - 300]), "end": rng.choice(["C", "C", "E", None]),
+               "late": rng.choice([1, 2])}
+
+
+def impl_backlog(case):
+    import reactivex as rx
+    from reactivex import operators as ops
+    from reactivex.disposable import Disposable
+
+    n = case["n"]
+
+    def subscribe(observer, scheduler=None):
+        for i in range(n):
+            observer.on_next(i)
+        if case["end"] == "C":
+            observer.on_completed()
+        elif case["end"] == "E":
+            observer.on_error(InjectedError("src"))
+        return Disposable()
+
+    import sys
+    conn = rx.Observable(subscribe).pipe(ops.replay(buffer_size=case["buf"]))
+    conn.connect()
+    out = []
+    old_limit = sys.getrecursionlimit()
+    sys.setrecursionlimit(1000)  # Python's default (the harness raises it): delivery of a backlog must not need a deep stack
+    try:
+        out = _backlog_subscribers(case, conn)
+    finally:
+        sys.setrecursionlimit(old_limit)
+    return {"subs": out}
+
+
+def _backlog_subscribers(case, conn):
+    out = []
+    for k in range(case["late"]):
+        got, term, raised = [], [], None
+        try:
+            conn.subscribe(got.append, lambda e: term.append("E:" + err_name(e)), lambda: term.append("C"))
+        except BaseException as e:  # noqa: an exception escaping from subscribe is part of the observation
+            raised = type(e).__name__
+        out.append({"count": len(got), "first": got[0] if got else None, "last": got[-1] if got else None,
+                    "ordered": got == list(range(got[0], got[0] + len(got))) if got else True, "term": term, "raised": raised})
+    return out
+
+
+def oracle_backlog(case, o):
+    n, buf = case["n"], case["buf"]
+    keep = n if buf is None else min(buf, n)
+    for k, s in enumerate(o["subs"]):
+        exp_term = {"C": ["C"], "E": ["E:src"], None: []}[case["end"]]
+        if s["raised"] or s["count"] != keep or s["first"] != n - keep or s["last"] != n - 1 or not s["ordered"] or s["term"] != exp_term:
+            return (f"late subscriber #{k} of replay(buffer_size={buf}) after {n} values: expected the last {keep} values {n - keep}..{n - 1} "
+                    f"then {exp_term}; got {s}")
+    return None
+
+
+
 # =============================================================================== real code
 def _source(sched, case):
     from reactivex.testing import ReactiveTest
@@ -528,6 +593,8 @@ def _subject_factory(case):
 
 
 def impl(case):
+    if case["op"] == "replay_backlog":
+        return impl_backlog(case)
     if case["op"] == "mcast_win":
         return impl_mcast_win(case)
     if case["op"] == "sync_run":
@@ -636,6 +703,8 @@ def _present_intervals(case, out):
 
 
 def oracle(case, o):
+    if case["op"] == "replay_backlog":
+        return oracle_backlog(case, o)
     if case["op"] == "mcast_win":
         return oracle_mcast_win(case, o)
     if case["op"] == "sync_run":
@@ -813,6 +882,8 @@ def oracle(case, o):
 
 
 def nontrivial(case, o):
+    if case["op"] == "replay_backlog":
+        return True
     if case["op"] == "mcast_win":
         return any(len(v) > case["n"] for v in o["out"].values())
     if case["op"] == "sync_run":
@@ -823,6 +894,8 @@ def nontrivial(case, o):
 
 def bucket(case, o):
     yield case["op"]
+    if case["op"] == "replay_backlog":
+        return
     if case["op"] == "mcast_win":
         yield "mcast_win:" + ("hot" if case["hot"] else "cold")
         return
@@ -842,6 +915,8 @@ def bucket(case, o):
 
 
 def shrink(case):
+    if case["op"] == "replay_backlog":
+        return
     if case["op"] == "mcast_win":
         for i in range(len(case["msgs"])):
             c = dict(case)
